@@ -236,9 +236,9 @@ func main() {
 	c.Meta.Corr = []string{"Taints.ToleratesPod", "HostPortUsage.Conflicts", "resources.Fits", "NewPodRequirements/NewStrictPodRequirements",
 		"Preferences.Relax", "NewExistingNode.remainingResources", "filterInstanceTypesByRequirements", "NodeClaim.CanAdd/Add", "ExistingNode.CanAdd/Add",
 		"Scheduler.Solve placements vs admissibility oracle (1/4/16 workers agree)"}
-	nUnit, nNC, nEX, nWorlds := 200, 160, 100, 120
+	nUnit, nNC, nEX, nWorlds := 150, 120, 80, 100
 	if c.Thorough() {
-		nUnit, nNC, nEX, nWorlds = 1500, 2500, 1000, 1500
+		nUnit, nNC, nEX, nWorlds = 1000, 1000, 500, 700
 	}
 	t0 := time.Now()
 	r := c.Rand
